@@ -63,7 +63,7 @@ func init() {
 		if n > 3 {
 			pkt[3] = 0x63 // no such address type
 		}
-		_, _, _, err := socks5.VerifC18ParseSocks5UDPDatagram(pkt)
+		err := c18Parse(pkt)
 		if errors.Is(err, stderror.ErrNoEnoughData) {
 			short = n
 		} else {
@@ -92,6 +92,18 @@ func init() {
 	probe := &c18OnePacket{}
 	apicommon.NewUDPAssociateWrapper(probe).ReadFrom(make([]byte, 100))
 	z("C18_WrapperHeaderRoom", int64(probe.asked-100))
+}
+
+// c18Parse: a panic of the parser counts as "not refused as too short" (the constant then differs and the
+// obligations that unfold it fail; the driver reports the panicking input).
+func c18Parse(pkt []byte) (err error) {
+	defer func() {
+		if x := recover(); x != nil {
+			err = errors.New("panic")
+		}
+	}()
+	_, _, _, err = socks5.VerifC18ParseSocks5UDPDatagram(pkt)
+	return err
 }
 
 type c18OnePacket struct {
